@@ -78,6 +78,26 @@ def extract_ohm():
     return ohm, addr
 
 
+def forwarding_scan():
+    """BaselineAssembler::<op>_synchronized (dora-cannon-compiler/src/asm.rs) must forward to the macro assembler's operation of the SAME
+    name (the width is part of the name); the rows of unit c09a decide the macro assembler, this scan ties the code generator's entry
+    points to them. A scan of the call, not a proof. Returns [(function, called, line)] for every wrapper that forwards elsewhere."""
+    S = Source(os.path.join(common.repo_root(), 'dora-cannon-compiler/src/asm.rs'))
+    bad = []
+    n = 0
+    for bl in S.find_impls("impl<'a> BaselineAssembler<'a>"):
+        d = S.depth[bl['open']] + 1
+        for (name, pos) in S.fns_in(bl['open'] + 1, bl['end'] - 1, d):
+            if not name.endswith('_synchronized'):
+                continue
+            n += 1
+            f = S.cut_fn(name, bl['open'] + 1, bl['end'] - 1, depth=d)
+            calls = re.findall(r'self\s*\.\s*masm\s*\.\s*([a-z0-9_]+_synchronized)\s*\(', f['text'])
+            if calls != [name]:
+                bad.append((name, calls, S.src.count('\n', 0, f['start']) + 1))
+    return n, bad
+
+
 def _runner_spec():
     ohm, addr = extract_ohm()
     return dict(name='c09', deps={}, lock=True, extra_deps=['parking_lot = "*"'], extra_files={'ohm.rs': ohm, 'address.rs': addr},
@@ -130,12 +150,31 @@ def run(tier):
     ]
     not_decided = ['mutual exclusion / no lost wake-up / join semantics in every interleaving', 'WaitLists::block / enqueue (managed handles, parking) and the per-key thread queues under concurrency (their sequential behaviour is executed by the runner: sampled)',
                    'atomic operations of the optimizing generator (pkgs/boots, Dora) and of the arm64 macro assembler']
+    try:
+        nwrap, badf = forwarding_scan()
+        kcov = dict(kcov or {}, forwarding_scan=dict(wrappers=nwrap, wrong=[b[0] for b in badf]))
+        for (name, calls, line) in badf:
+            kv.append(('scan:asm.rs:' + name, 'BaselineAssembler::%s forwards to the macro assembler operation of the same name' % name,
+                       dict(note='dora-cannon-compiler/src/asm.rs:%d: %s calls %s' % (line, name, calls or 'nothing'),
+                            failing_input=dict(kind='call-site', file='dora-cannon-compiler/src/asm.rs', line=line, function=name, calls=calls)), True))
+        if nwrap == 0:
+            pre_und.append('forwarding scan: no *_synchronized wrapper found in impl BaselineAssembler (asm.rs)')
+    except Exception as e:
+        pre_und.append('forwarding scan failed: %s' % e)
     return vprop.run_verus_property(PROP, tier, units, runner=runner, assumptions=assumptions, samples=samples, not_decided=not_decided, pre_undecided=pre_und,
                                     pre_violations=kv, extra_cov=kcov, extra_obligations=kobl)
 
 
 def replay(rp):
     fi = rp.get('failing_input')
+    if fi and fi.get('kind') == 'call-site':
+        n, bad = forwarding_scan()
+        hit = [b for b in bad if b[0] == fi.get('function')]
+        if hit:
+            print('STILL FAILS on the real code: %s (asm.rs:%d) calls %s' % (hit[0][0], hit[0][2], hit[0][1]))
+            return 1
+        print('the wrapper forwards to the operation of the same name on the real code')
+        return 0
     if fi and fi.get('kind') == 'kani-row':
         return kprop.replay_row(rp)
     if not fi:
